@@ -2,11 +2,8 @@
 
 from __future__ import annotations
 
-from collections import defaultdict
-from contextlib import contextmanager
 from typing import TYPE_CHECKING
 from typing import Iterable
-from typing import Iterator
 from typing import Sequence
 from typing import TextIO
 
@@ -42,21 +39,6 @@ def _length(val: Sequence[object], token: TokenT) -> int:
     except OverflowError as err:
         # A range with more items than `len()` can count.
         raise LiquidTypeError("the sequence is too large to loop over", token=token) from err
-
-
-@contextmanager
-def _no_block_stacks(context: RenderContext) -> Iterator[None]:
-    """Render an included template with no inherited block stacks in force.
-
-    When `include` is used inside a block of an inheritance chain, blocks defined
-    by the included template are its own. They are not overridden by the chain.
-    """
-    outer_block_stacks = context.tag_namespace["extends"]
-    context.tag_namespace["extends"] = defaultdict(list)
-    try:
-        yield
-    finally:
-        context.tag_namespace["extends"] = outer_block_stacks
 
 
 class IncludeNode(Node):
@@ -114,7 +96,7 @@ class IncludeNode(Node):
 
         character_count = 0
 
-        with context.extend(namespace, template=template), _no_block_stacks(context):
+        with context.extend(namespace, template=template):
             if self.var:
                 val = self.var.evaluate(context)
                 key = self.alias or template.name.split(".")[0]
@@ -159,7 +141,7 @@ class IncludeNode(Node):
 
         character_count = 0
 
-        with context.extend(namespace, template=template), _no_block_stacks(context):
+        with context.extend(namespace, template=template):
             if self.var:
                 val = await self.var.evaluate_async(context)
                 key = self.alias or template.name.split(".")[0]
